@@ -257,9 +257,23 @@ def main(replay=None):
         zi, fi = core.fparse(line)
         if zi is None or zi[0] != 0:
             ck.violation("numeric: implementation failed on %s" % kind, "HeadMat/SVD/invert failed on %s: %s" % (name, line[:100]), rp); continue
-        n, npot, ndefl, nparts, nmesh, ncav = zi[1:7]; worst, smin, smax, resid, cav = fi
+        n, npot, ndefl, nparts, nmesh, ncav, changed = zi[1:8]; worst, smin, smax, resid, cav, resid_ip, routes, sres, serr = fi
         numeric.append(dict(model=name, n=n, potentials=npot, deflated_rows=ndefl, parts=nparts, rowsum_rel=worst, smin=smin, smax=smax, resid=resid,
+                            resid_invert_in_place=resid_ip, inverse_vs_invert=routes, solveLin_residual=sres, solveLin_error=serr, receiver_changed=changed,
                             cavity_walls=ncav, cavity_indicator_residual=cav))
+        if changed & 1:
+            ck.violation("inverse: A.inverse() const modifies A (%s)" % kind,
+                         "after `Ainv = A.inverse()` on the head matrix of %s the object A is no longer bitwise the matrix it was (a const method), and max|A*Ainv-I| computed with the same A is %.3g" % (name, resid), rp)
+        if changed & 2:
+            ck.violation("solveLin: modifies A (%s)" % kind, "SymMatrix::solveLin changed the matrix it was called on (%s)" % name, rp)
+        if smin > 1e-10 * smax:
+            cond = smax / smin
+            if not (0 <= resid_ip < 1e-9 * cond):
+                ck.violation("inverse: in-place invert() (%s)" % kind, "B = copy(A); B.invert(): |A*B-I|max = %.3g exceeds 1e-9*cond (cond %.3g) on %s" % (resid_ip, cond, name), rp)
+            if not (0 <= routes < 1e-9 * cond):
+                ck.violation("inverse: inverse() and invert() disagree (%s)" % kind, "A.inverse() and invert() on a copy differ by %.3g relative on %s" % (routes, name), rp)
+            if not (0 <= sres < 1e-9 * cond and 0 <= serr < 1e-9 * cond):
+                ck.violation("solveLin: residual (%s)" % kind, "SymMatrix::solveLin (Vector / Matrix / Vector* forms) on %s: |A x - b|/|b| = %.3g, |x - x0|/|x0| = %.3g, bound 1e-9*cond = %.3g" % (name, sres, serr, 1e-9 * cond), rp)
         if ncav > 0 and cav > 1e-9:
             ck.violation("cavity wall: indicator not in the kernel (%s)" % kind,
                          "%s has %d current-barrier mesh(es) that deflate never touches, but |A*1_W|/max|A| = %.3g: theorem cavity_wall_indicator_in_kernel predicts 0 (Gauss' law for the D kernel or the block structure no longer holds)" % (name, ncav, cav), rp)
@@ -283,7 +297,6 @@ def main(replay=None):
         "wf_indexed (index bijection of the dumped geometry): Section hypothesis of the structural theorems, discharged for every geometry accepted by finalize (default ordering) by C11's bridge coq/Geom/IndexBridgeC10.v",
         "cavity_wall_indicator_in_kernel: Gauss' law for the abstract D kernel on the cavity wall seen from its partner meshes (hypothesis W_gauss), no shared vertices with the wall; replayed numerically on the real matrices",
         "inside one N block of the head matrix the model reads S from the matrix as it was at block start (equal to the live reads when no vertex index equals a triangle index)",
-        "headmat_dimension: nb_parameters = #valid vertices + #current triangles + #barrier triangles (C11's count) is a premise",
         "kernels (analyticS, analyticD3, Integrator) are abstract in the theorems; the ties run them as library code and as injected integer-valued classes compiled into operators.h / assembleHeadMat.cpp / assembleSourceMat.cpp",
         "invertibility after deflation and |A*inv(A)-I| are measured (SVD, SymMatrix::invert), not proved"]
     ck.cov["trusted_base"] += ["hand-written Gallina models coq/Geom/{Assembly,AssemblyOps}.v tied by entry-by-entry runs (harness/h_c10.cpp, h_c10s.cpp vs extracted extract/omm)",
